@@ -302,6 +302,8 @@ pub struct Machine<'p> {
     /// heap and free registers at the marker of a print statement: they must be the same at the next
     /// statement boundary (a print allocates nothing; the registers are caller-saved)
     pub print_guard: Option<((u64, bool), (u64, bool))>,
+    /// environment and contents of all variable locations at the marker of a print statement
+    pub print_vars: Option<(Vec<(String, super::Chi)>, Vec<(u64, bool)>, Vec<(u64, bool)>)>,
     pub prints: Vec<PrintEv>,
     pub stats: EmuStats,
     pub entry_sp: u64,
@@ -447,12 +449,17 @@ impl<'p> Machine<'p> {
     }
 
     fn roots_for(&self, n: usize) -> Vec<(u64, bool)> {
+        self.locs_for(n, false)
+    }
+
+    /// contents of the first (`snd` false) or second temporary of the variables at positions 0..n
+    fn locs_for(&self, n: usize, snd: bool) -> Vec<(u64, bool)> {
         // position -> temporary by the backend's own map
         let mut out = Vec::with_capacity(n);
         for pos in 0..n {
             // a context with `pos` bindings: fresh_temporary(Fst) is the first temporary of position pos
             let ctx = dummy_context(pos);
-            let t = <axcut2x86_64::Backend as Utils<Temporary>>::fresh_temporary(TemporaryNumber::Fst, &ctx);
+            let t = <axcut2x86_64::Backend as Utils<Temporary>>::fresh_temporary(if snd { TemporaryNumber::Snd } else { TemporaryNumber::Fst }, &ctx);
             match t {
                 Temporary::Register(r) => {
                     let h = backend_reg(r.0) as usize;
@@ -498,6 +505,7 @@ pub fn run(prog: &Program, args: &[i64], cfg: &EmuConfig) -> EmuResult {
         flags_partial: false,
         max_written: 0,
         print_guard: None,
+        print_vars: None,
         prints: Vec::new(),
         stats: EmuStats::default(),
         entry_sp: 0,
@@ -579,6 +587,26 @@ pub fn run(prog: &Program, args: &[i64], cfg: &EmuConfig) -> EmuResult {
                         }
                         if mk.kind == "print" {
                             m.print_guard = Some(now);
+                        }
+                        // a print statement leaves the context as it is: every variable is found
+                        // in the same place with the same contents at the next marker
+                        if let Some((env, fst, snd)) = m.print_vars.take() {
+                            if m.stats.print_changed.is_none() && env.iter().map(|e| &e.0).eq(mk.env.iter().map(|e| &e.0)) {
+                                let (f2, s2) = (m.locs_for(env.len(), false), m.locs_for(env.len(), true));
+                                for (i, (name, chi)) in env.iter().enumerate() {
+                                    let ext = matches!(chi, super::Chi::Ext);
+                                    if (snd[i].1 && snd[i] != s2[i]) || (!ext && fst[i].1 && fst[i] != f2[i]) {
+                                        m.stats.print_changed = Some(format!(
+                                            "variable {name} (position {i} of {}) held ({:#x}, {:#x}) before the print statement and ({:#x}, {:#x}) after it",
+                                            env.len(), fst[i].0, snd[i].0, f2[i].0, s2[i].0
+                                        ));
+                                        break;
+                                    }
+                                }
+                            }
+                        }
+                        if mk.kind == "print" {
+                            m.print_vars = Some((mk.env.clone(), m.locs_for(mk.env.len(), false), m.locs_for(mk.env.len(), true)));
                         }
                     }
                     if cfg.heap_check_every > 0 && m.stats.markers % cfg.heap_check_every == 0 {
